@@ -32,6 +32,8 @@ function V(x){ if(x===undefined) return '0'; if(typeof x==='number') return x!==
   if(x===true) return '996'; if(x===false) return '995'; if(typeof x==='string') return '997';
   for(var i=0;i<SP.length;i++){ if(SP[i][1]===x) return String(SP[i][0]); } return '997'; }
 function B(x){ return x===true?'1':x===false?'0':'?'; }
+function DI(own,inh){ var o=Object.create(inh); for(var k in own){ if(hop.call(own,k)) o[k]=own[k]; } return o; }
+function ND(inh,own){ function Desc(){ for(var k in own){ if(hop.call(own,k)) this[k]=own[k]; } } Desc.prototype=inh; return new Desc(); }
 function Fs(f){ if(f===undefined) return 'u'; var i=F.indexOf(f); return String(i<0?900:i); }
 function Dsc(o,n){ var d=Object.getOwnPropertyDescriptor(o,n); if(d===undefined) return '-';
   var hv=hop.call(d,'value'), hw=hop.call(d,'writable'), hg=hop.call(d,'get'), hs=hop.call(d,'set');
@@ -156,10 +158,8 @@ func c07GS(s string) string {
 }
 
 // c07Desc renders a descriptor (fields e.c.w.v.g.s or N) as a JavaScript expression.
-func c07Desc(f []string, alt bool) string {
-	if len(f) == 1 && f[0] == "N" {
-		return "7"
-	}
+// c07DescParts lists the fields of a descriptor as JavaScript `key:value` strings.
+func c07DescParts(f []string, alt bool) []string {
 	if len(f) != 6 {
 		panic("bad descriptor " + strings.Join(f, "."))
 	}
@@ -188,14 +188,53 @@ func c07Desc(f []string, alt bool) string {
 			parts[i], parts[j] = parts[j], parts[i]
 		}
 	}
-	return "{" + strings.Join(parts, ",") + "}"
+	return parts
 }
 
-func c07Entries(ents []string, alt bool) string {
+// c07Desc renders a descriptor (fields e.c.w.v.g.s or N) as a JavaScript expression.  The request fixes WHICH
+// fields the descriptor has; `mode` (derived from the step index) only varies how they are spelled: 8.10.5
+// ToPropertyDescriptor tests every field with [[HasProperty]], so inherited fields must count like own ones.
+//   0 literal   1 every field inherited (Object.create(template))   2 fields alternately own / inherited
+//   3 literal, reversed order, 1/0 for booleans   4 `new Desc()` with own and prototype fields   5 two-level chain
+func c07Desc(f []string, mode int) string {
+	if len(f) == 1 && f[0] == "N" {
+		return "7"
+	}
+	parts := c07DescParts(f, mode == 3)
+	lit := func(ps []string) string { return "{" + strings.Join(ps, ",") + "}" }
+	var own, inh []string
+	for i, p := range parts {
+		if i%2 == 0 {
+			own = append(own, p)
+		} else {
+			inh = append(inh, p)
+		}
+	}
+	switch mode {
+	case 1:
+		return "Object.create(" + lit(parts) + ")"
+	case 2:
+		return "DI(" + lit(own) + "," + lit(inh) + ")"
+	case 4:
+		return "ND(" + lit(inh) + "," + lit(own) + ")"
+	case 5:
+		return "Object.create(DI(" + lit(inh) + "," + lit(own) + "))"
+	}
+	return lit(parts)
+}
+
+func c07DescPartsOrNil(f []string) []string {
+	if len(f) != 6 {
+		return nil
+	}
+	return c07DescParts(f, false)
+}
+
+func c07Entries(ents []string, mode int) string {
 	var parts []string
 	for _, e := range ents {
 		f := strings.Split(e, ".")
-		parts = append(parts, c07Name(f[0])+":"+c07Desc(f[1:], alt))
+		parts = append(parts, c07Name(f[0])+":"+c07Desc(f[1:], mode))
 	}
 	return "{" + strings.Join(parts, ",") + "}"
 }
@@ -260,9 +299,15 @@ func c07Script(toks []string) string {
 			}
 			body = fmt.Sprintf("return (delete O[%s].%s)?'t':'f';", f[2], c07Name(f[3]))
 		case "D":
-			body = fmt.Sprintf("Object.defineProperty(O[%s],'%s',%s);return 'ok';", f[1], c07Name(f[2]), c07Desc(f[3:], alt))
+			body = fmt.Sprintf("Object.defineProperty(O[%s],'%s',%s);return 'ok';", f[1], c07Name(f[2]), c07Desc(f[3:], i%6))
+			if ps := c07DescPartsOrNil(f[3:]); i%12 == 11 && len(ps) > 0 {
+				// the first field lives on Object.prototype while the call runs
+				kv := strings.SplitN(ps[0], ":", 2)
+				body = fmt.Sprintf("Object.prototype.%s=%s;try{Object.defineProperty(O[%s],'%s',{%s});}finally{delete Object.prototype.%s;}return 'ok';",
+					kv[0], kv[1], f[1], c07Name(f[2]), strings.Join(ps[1:], ","), kv[0])
+			}
 		case "M":
-			body = fmt.Sprintf("Object.defineProperties(O[%s],%s);return 'ok';", f[1], c07Entries(ents, alt))
+			body = fmt.Sprintf("Object.defineProperties(O[%s],%s);return 'ok';", f[1], c07Entries(ents, i%6))
 		case "C":
 			proto := ""
 			if f[1] == "-" {
@@ -280,7 +325,7 @@ func c07Script(toks []string) string {
 			case len(ents) == 0 && i%2 == 1:
 				body = fmt.Sprintf("var x=Object.create(%s);O.push(x);return 'ok';", proto)
 			default:
-				body = fmt.Sprintf("var x=Object.create(%s,%s);O.push(x);return 'ok';", proto, c07Entries(ents, alt))
+				body = fmt.Sprintf("var x=Object.create(%s,%s);O.push(x);return 'ok';", proto, c07Entries(ents, i%6))
 			}
 		case "F":
 			body = fmt.Sprintf("Object.freeze(O[%s]);return 'ok';", f[1])
@@ -320,7 +365,6 @@ func c07ArgScript(toks []string) string {
 `)
 	for i, tok := range toks {
 		f := strings.Split(tok, ".")
-		alt := i%4 == 3
 		body := ""
 		switch f[0] {
 		case "A":
@@ -334,7 +378,7 @@ func c07ArgScript(toks []string) string {
 		case "X":
 			body = fmt.Sprintf("return (delete A['%s'])?'t':'f';", c07Name(f[1]))
 		case "D":
-			body = fmt.Sprintf("Object.defineProperty(A,'%s',%s);return 'ok';", c07Name(f[1]), c07Desc(f[2:], alt))
+			body = fmt.Sprintf("Object.defineProperty(A,'%s',%s);return 'ok';", c07Name(f[1]), c07Desc(f[2:], i%6))
 		case "F":
 			body = "Object.freeze(A);return 'ok';"
 		case "S":
@@ -384,7 +428,7 @@ func implC07Global(toks []string) string {
 		case "X":
 			prog = "(delete " + name + ")?'t':'f'"
 		case "D":
-			prog = "Object.defineProperty(this,'" + name + "'," + c07Desc(f[1:], i%4 == 3) + "); 'ok'"
+			prog = "Object.defineProperty(this,'" + name + "'," + c07Desc(f[1:], i%6) + "); 'ok'"
 		default:
 			panic("bad op " + tok)
 		}
